@@ -1,0 +1,1276 @@
+//go:build verif
+
+// Contracts for package fpgo (comment-only file; compiled only under the build tag "verif", and then it is empty).
+// Read by /verif/bin/govc; see /verif/DESIGN.md section 3 for the clause language.
+package fpgo
+
+// ===================================================================================================
+// C02 - numeric conversions of Maybe are value-preserving or fail (bit-vector / IEEE-754 semantics)
+//
+// self.ref is the wrapped value; the clauses are checked once per source kind ("from=<kind>").
+//   N  absent                      => (zero, ErrConversionNil)
+//   S  supported and nil error     => the result is the mathematically same number (never wrapped/truncated)
+//   F  value fits the target type  => nil error          (int/uint: portable 32-bit range)
+//   O  value outside the target    => non-nil error
+//   U  unsupported kind            => ErrConversionUnsupported
+
+//@ func (someDef).ToInt
+//@   prop C02
+//@   arith bv
+//@   opt split=convkinds
+//@   requires wf: self.isNil == absent(self.ref) && self.isPresent == !self.isNil
+//@   ensures N: self.isNil ==> r0 == 0 && r1 == ErrConversionNil
+//@   ensures S: !self.isNil && convSupported(self.ref) && r1 == nil ==> convExact(r0, self.ref)
+//@   ensures F: !self.isNil && convFits(self.ref, r0) ==> r1 == nil
+//@   ensures O: !self.isNil && convOutside(self.ref, r0) ==> r1 != nil
+//@   ensures U: !self.isNil && !convSupported(self.ref) ==> r1 == ErrConversionUnsupported
+//@   ensures I: !self.isNil && convSameType(self.ref, r0) ==> r1 == nil
+
+//@ func (someDef).ToInt8
+//@   prop C02
+//@   arith bv
+//@   opt split=convkinds
+//@   requires wf: self.isNil == absent(self.ref) && self.isPresent == !self.isNil
+//@   ensures N: self.isNil ==> r0 == 0 && r1 == ErrConversionNil
+//@   ensures S: !self.isNil && convSupported(self.ref) && r1 == nil ==> convExact(r0, self.ref)
+//@   ensures F: !self.isNil && convFits(self.ref, r0) ==> r1 == nil
+//@   ensures O: !self.isNil && convOutside(self.ref, r0) ==> r1 != nil
+//@   ensures U: !self.isNil && !convSupported(self.ref) ==> r1 == ErrConversionUnsupported
+//@   ensures I: !self.isNil && convSameType(self.ref, r0) ==> r1 == nil
+
+//@ func (someDef).ToInt16
+//@   prop C02
+//@   arith bv
+//@   opt split=convkinds
+//@   requires wf: self.isNil == absent(self.ref) && self.isPresent == !self.isNil
+//@   ensures N: self.isNil ==> r0 == 0 && r1 == ErrConversionNil
+//@   ensures S: !self.isNil && convSupported(self.ref) && r1 == nil ==> convExact(r0, self.ref)
+//@   ensures F: !self.isNil && convFits(self.ref, r0) ==> r1 == nil
+//@   ensures O: !self.isNil && convOutside(self.ref, r0) ==> r1 != nil
+//@   ensures U: !self.isNil && !convSupported(self.ref) ==> r1 == ErrConversionUnsupported
+//@   ensures I: !self.isNil && convSameType(self.ref, r0) ==> r1 == nil
+
+//@ func (someDef).ToInt32
+//@   prop C02
+//@   arith bv
+//@   opt split=convkinds
+//@   requires wf: self.isNil == absent(self.ref) && self.isPresent == !self.isNil
+//@   ensures N: self.isNil ==> r0 == 0 && r1 == ErrConversionNil
+//@   ensures S: !self.isNil && convSupported(self.ref) && r1 == nil ==> convExact(r0, self.ref)
+//@   ensures F: !self.isNil && convFits(self.ref, r0) ==> r1 == nil
+//@   ensures O: !self.isNil && convOutside(self.ref, r0) ==> r1 != nil
+//@   ensures U: !self.isNil && !convSupported(self.ref) ==> r1 == ErrConversionUnsupported
+//@   ensures I: !self.isNil && convSameType(self.ref, r0) ==> r1 == nil
+
+//@ func (someDef).ToInt64
+//@   prop C02
+//@   arith bv
+//@   opt split=convkinds
+//@   requires wf: self.isNil == absent(self.ref) && self.isPresent == !self.isNil
+//@   ensures N: self.isNil ==> r0 == 0 && r1 == ErrConversionNil
+//@   ensures S: !self.isNil && convSupported(self.ref) && r1 == nil ==> convExact(r0, self.ref)
+//@   ensures F: !self.isNil && convFits(self.ref, r0) ==> r1 == nil
+//@   ensures O: !self.isNil && convOutside(self.ref, r0) ==> r1 != nil
+//@   ensures U: !self.isNil && !convSupported(self.ref) ==> r1 == ErrConversionUnsupported
+//@   ensures I: !self.isNil && convSameType(self.ref, r0) ==> r1 == nil
+
+//@ func (someDef).ToByte
+//@   prop C02
+//@   arith bv
+//@   opt split=convkinds
+//@   requires wf: self.isNil == absent(self.ref) && self.isPresent == !self.isNil
+//@   ensures N: self.isNil ==> r0 == 0 && r1 == ErrConversionNil
+//@   ensures S: !self.isNil && convSupported(self.ref) && r1 == nil ==> convExact(r0, self.ref)
+//@   ensures F: !self.isNil && convFits(self.ref, r0) ==> r1 == nil
+//@   ensures O: !self.isNil && convOutside(self.ref, r0) ==> r1 != nil
+//@   ensures U: !self.isNil && !convSupported(self.ref) ==> r1 == ErrConversionUnsupported
+//@   ensures I: !self.isNil && convSameType(self.ref, r0) ==> r1 == nil
+
+//@ func (someDef).ToUint8
+//@   prop C02
+//@   arith bv
+//@   opt split=convkinds
+//@   requires wf: self.isNil == absent(self.ref) && self.isPresent == !self.isNil
+//@   ensures N: self.isNil ==> r0 == 0 && r1 == ErrConversionNil
+//@   ensures S: !self.isNil && convSupported(self.ref) && r1 == nil ==> convExact(r0, self.ref)
+//@   ensures F: !self.isNil && convFits(self.ref, r0) ==> r1 == nil
+//@   ensures O: !self.isNil && convOutside(self.ref, r0) ==> r1 != nil
+//@   ensures U: !self.isNil && !convSupported(self.ref) ==> r1 == ErrConversionUnsupported
+//@   ensures I: !self.isNil && convSameType(self.ref, r0) ==> r1 == nil
+
+//@ func (someDef).ToUint
+//@   prop C02
+//@   arith bv
+//@   opt split=convkinds
+//@   requires wf: self.isNil == absent(self.ref) && self.isPresent == !self.isNil
+//@   ensures N: self.isNil ==> r0 == 0 && r1 == ErrConversionNil
+//@   ensures S: !self.isNil && convSupported(self.ref) && r1 == nil ==> convExact(r0, self.ref)
+//@   ensures F: !self.isNil && convFits(self.ref, r0) ==> r1 == nil
+//@   ensures O: !self.isNil && convOutside(self.ref, r0) ==> r1 != nil
+//@   ensures U: !self.isNil && !convSupported(self.ref) ==> r1 == ErrConversionUnsupported
+//@   ensures I: !self.isNil && convSameType(self.ref, r0) ==> r1 == nil
+
+//@ func (someDef).ToUint16
+//@   prop C02
+//@   arith bv
+//@   opt split=convkinds
+//@   requires wf: self.isNil == absent(self.ref) && self.isPresent == !self.isNil
+//@   ensures N: self.isNil ==> r0 == 0 && r1 == ErrConversionNil
+//@   ensures S: !self.isNil && convSupported(self.ref) && r1 == nil ==> convExact(r0, self.ref)
+//@   ensures F: !self.isNil && convFits(self.ref, r0) ==> r1 == nil
+//@   ensures O: !self.isNil && convOutside(self.ref, r0) ==> r1 != nil
+//@   ensures U: !self.isNil && !convSupported(self.ref) ==> r1 == ErrConversionUnsupported
+//@   ensures I: !self.isNil && convSameType(self.ref, r0) ==> r1 == nil
+
+//@ func (someDef).ToUint32
+//@   prop C02
+//@   arith bv
+//@   opt split=convkinds
+//@   requires wf: self.isNil == absent(self.ref) && self.isPresent == !self.isNil
+//@   ensures N: self.isNil ==> r0 == 0 && r1 == ErrConversionNil
+//@   ensures S: !self.isNil && convSupported(self.ref) && r1 == nil ==> convExact(r0, self.ref)
+//@   ensures F: !self.isNil && convFits(self.ref, r0) ==> r1 == nil
+//@   ensures O: !self.isNil && convOutside(self.ref, r0) ==> r1 != nil
+//@   ensures U: !self.isNil && !convSupported(self.ref) ==> r1 == ErrConversionUnsupported
+//@   ensures I: !self.isNil && convSameType(self.ref, r0) ==> r1 == nil
+
+//@ func (someDef).ToUint64
+//@   prop C02
+//@   arith bv
+//@   opt split=convkinds
+//@   requires wf: self.isNil == absent(self.ref) && self.isPresent == !self.isNil
+//@   ensures N: self.isNil ==> r0 == 0 && r1 == ErrConversionNil
+//@   ensures S: !self.isNil && convSupported(self.ref) && r1 == nil ==> convExact(r0, self.ref)
+//@   ensures F: !self.isNil && convFits(self.ref, r0) ==> r1 == nil
+//@   ensures O: !self.isNil && convOutside(self.ref, r0) ==> r1 != nil
+//@   ensures U: !self.isNil && !convSupported(self.ref) ==> r1 == ErrConversionUnsupported
+//@   ensures I: !self.isNil && convSameType(self.ref, r0) ==> r1 == nil
+
+//@ func (someDef).ToUintptr
+//@   prop C02
+//@   arith bv
+//@   opt split=convkinds
+//@   requires wf: self.isNil == absent(self.ref) && self.isPresent == !self.isNil
+//@   ensures N: self.isNil ==> r0 == 0 && r1 == ErrConversionNil
+//@   ensures S: !self.isNil && convSupported(self.ref) && r1 == nil ==> convExact(r0, self.ref)
+//@   ensures F: !self.isNil && convFits(self.ref, r0) ==> r1 == nil
+//@   ensures O: !self.isNil && convOutside(self.ref, r0) ==> r1 != nil
+//@   ensures U: !self.isNil && !convSupported(self.ref) ==> r1 == ErrConversionUnsupported
+//@   ensures I: !self.isNil && convSameType(self.ref, r0) ==> r1 == nil
+
+//@ func (someDef).ToFloat32
+//@   prop C02
+//@   arith bv
+//@   opt split=convkinds
+//@   requires wf: self.isNil == absent(self.ref) && self.isPresent == !self.isNil
+//@   ensures N: self.isNil ==> r0 == 0 && r1 == ErrConversionNil
+//@   ensures S: !self.isNil && convSupported(self.ref) && r1 == nil ==> convExact(r0, self.ref)
+//@   ensures F: !self.isNil && convFits(self.ref, r0) ==> r1 == nil
+//@   ensures O: !self.isNil && convOutside(self.ref, r0) ==> r1 != nil
+//@   ensures U: !self.isNil && !convSupported(self.ref) ==> r1 == ErrConversionUnsupported
+//@   ensures I: !self.isNil && convSameType(self.ref, r0) ==> r1 == nil
+
+//@ func (someDef).ToFloat64
+//@   prop C02
+//@   arith bv
+//@   opt split=convkinds
+//@   requires wf: self.isNil == absent(self.ref) && self.isPresent == !self.isNil
+//@   ensures N: self.isNil ==> r0 == 0 && r1 == ErrConversionNil
+//@   ensures S: !self.isNil && convSupported(self.ref) && r1 == nil ==> convExact(r0, self.ref)
+//@   ensures F: !self.isNil && convFits(self.ref, r0) ==> r1 == nil
+//@   ensures O: !self.isNil && convOutside(self.ref, r0) ==> r1 != nil
+//@   ensures U: !self.isNil && !convSupported(self.ref) ==> r1 == ErrConversionUnsupported
+//@   ensures I: !self.isNil && convSameType(self.ref, r0) ==> r1 == nil
+
+//@ func (someDef).ToBool
+//@   prop C02
+//@   arith bv
+//@   opt split=convkinds
+//@   requires wf: self.isNil == absent(self.ref) && self.isPresent == !self.isNil
+//@   ensures N: self.isNil ==> r0 == false && r1 == ErrConversionNil
+//@   ensures B: !self.isNil && convSupported(self.ref) && r1 == nil ==> convBool(r0, self.ref)
+//@   ensures F: !self.isNil && convSupported(self.ref) && !convIsString(self.ref) ==> r1 == nil
+//@   ensures U: !self.isNil && !convSupported(self.ref) ==> r1 == ErrConversionUnsupported
+//@   ensures I: !self.isNil && convSameType(self.ref, r0) ==> r1 == nil
+
+// ===================================================================================================
+// C03 - slice / map helpers equal their definitions (mathematical integers; element type abstract)
+//
+// Conventions: seq-valued results are described index by index; "fresh(r0)" = storage allocated by this call;
+// "unchanged(x)" = the input sequence reads the same afterwards. Callbacks are pure functions.
+
+//@ func Map
+//@   prop C03
+//@   ensures len: len(r0) == len(values)
+//@   ensures elems: forall(i, 0, len(values), r0[i] == fn(values[i]))
+//@   ensures fresh: fresh(r0)
+//@   ensures unchanged: unchanged(values)
+//@ func Map loop 0
+//@   invariant len: len(result) == len(values)
+//@   invariant fresh: fresh(result)
+//@   invariant prefix: forall(j, 0, _i, result[j] == fn(values[j]))
+
+//@ func MapIndexed
+//@   prop C03
+//@   ensures len: len(r0) == len(values)
+//@   ensures elems: forall(i, 0, len(values), r0[i] == fn(values[i], i))
+//@   ensures fresh: fresh(r0)
+//@   ensures unchanged: unchanged(values)
+//@ func MapIndexed loop 0
+//@   invariant len: len(result) == len(values)
+//@   invariant fresh: fresh(result)
+//@   invariant prefix: forall(j, 0, _i, result[j] == fn(values[j], j))
+
+//@ func Reverse
+//@   prop C03
+//@   ensures len: len(r0) == len(list)
+//@   ensures elems: forall(i, 0, len(list), r0[i] == list[len(list)-1-i])
+//@   ensures fresh: fresh(r0)
+//@   ensures unchanged: unchanged(list)
+//@ func Reverse loop 0
+//@   invariant range: 0 <= i && i <= len(list)
+//@   invariant len: len(newList) == len(list)
+//@   invariant fresh: fresh(newList)
+//@   invariant prefix: forall(j, 0, i, newList[j] == list[len(list)-1-j])
+
+//@ func Drop
+//@   prop C03
+//@   ensures none: count <= 0 ==> r0 == list
+//@   ensures all: count >= len(list) && count > 0 ==> len(r0) == 0
+//@   ensures some: count > 0 && count < len(list) ==> len(r0) == len(list) - count && forall(i, 0, len(r0), r0[i] == list[count+i])
+//@   ensures unchanged: unchanged(list)
+
+//@ func DropLast
+//@   prop C03
+//@   ensures none: count <= 0 ==> r0 == list
+//@   ensures all: count >= len(list) && count > 0 ==> len(r0) == 0
+//@   ensures some: count > 0 && count < len(list) ==> len(r0) == len(list) - count && forall(i, 0, len(r0), r0[i] == list[i])
+//@   ensures unchanged: unchanged(list)
+
+//@ func Take
+//@   prop C03
+//@   ensures some: count > 0 && count < len(list) ==> len(r0) == count && forall(i, 0, count, r0[i] == list[i])
+//@   ensures all: count >= len(list) ==> r0 == list
+//@   ensures corner: count <= 0 ==> r0 == list || len(r0) == 0
+//@   ensures unchanged: unchanged(list)
+
+//@ func TakeLast
+//@   prop C03
+//@   ensures some: count > 0 && count < len(list) ==> len(r0) == count && forall(i, 0, count, r0[i] == list[len(list)-count+i])
+//@   ensures all: count >= len(list) ==> r0 == list
+//@   ensures corner: count <= 0 ==> r0 == list || len(r0) == 0
+//@   ensures unchanged: unchanged(list)
+
+//@ func Head
+//@   prop C03
+//@   ensures some: len(list) > 0 ==> r0 == list[0]
+//@   ensures unchanged: unchanged(list)
+
+//@ func Tail
+//@   prop C03
+//@   ensures empty: len(list) <= 1 ==> len(r0) == 0
+//@   ensures some: len(list) > 1 ==> len(r0) == len(list) - 1 && forall(i, 0, len(r0), r0[i] == list[i+1])
+//@   ensures unchanged: unchanged(list)
+
+// Filter-like results are characterised by two ghost index maps (existential witnesses):
+//   g[j]   = index in the input of the j-th element of the result (strictly increasing),
+//   pos[k] = position in the result of input element k, for every k that is kept.
+// Together the three clauses sub/mono/all determine the result uniquely: it is the subsequence of exactly the kept elements, in order.
+
+//@ func Filter
+//@   prop C03
+//@   ghost g (Array Int Int)
+//@   ghost pos (Array Int Int)
+//@   ensures sub: forall(j, 0, len(r0), 0 <= g[j] && g[j] < len(input) && r0[j] == input[g[j]] && fn(input[g[j]], g[j]))
+//@   ensures mono: forall(j, 0, len(r0), forall(l, 0, j, g[l] < g[j]))
+//@   ensures all: forall(k, 0, len(input), fn(input[k], k) ==> 0 <= pos[k] && pos[k] < len(r0) && g[pos[k]] == k)
+//@   ensures fresh: fresh(r0)
+//@   ensures unchanged: unchanged(input)
+//@ func Filter loop 0
+//@   ghostset g = ite(fn(input[_i], _i), store(g, newLen-1, _i), g)
+//@   ghostset pos = ite(fn(input[_i], _i), store(pos, _i, newLen-1), pos)
+//@   invariant n: 0 <= newLen && newLen <= _i
+//@   invariant len: len(list) == len(input) && fresh(list)
+//@   invariant sub: forall(j, 0, newLen, 0 <= g[j] && g[j] < _i && list[j] == input[g[j]] && fn(input[g[j]], g[j]))
+//@   invariant mono: forall(j, 0, newLen, forall(l, 0, j, g[l] < g[j]))
+//@   invariant all: forall(k, 0, _i, fn(input[k], k) ==> 0 <= pos[k] && pos[k] < newLen && g[pos[k]] == k)
+
+// Reduce: the ghost sequence m of intermediate accumulators witnesses the left fold.
+//@ func Reduce
+//@   prop C03
+//@   ghost m (Array Int Val)
+//@   ghostinit m = store(m, 0, memo)
+//@   ensures fold: m[0] == old(memo) && forall(k, 0, len(input), m[k+1] == fn(m[k], input[k])) && r0 == m[len(input)]
+//@   ensures unchanged: unchanged(input)
+//@ func Reduce loop 0
+//@   ghostset m = store(m, i+1, memo)
+//@   invariant range: 0 <= i && i <= len(input)
+//@   invariant acc: m[0] == old(memo) && memo == m[i]
+//@   invariant steps: forall(k, 0, i, m[k+1] == fn(m[k], input[k]))
+
+//@ func ReduceIndexed
+//@   prop C03
+//@   ghost m (Array Int Val)
+//@   ghostinit m = store(m, 0, memo)
+//@   ensures fold: m[0] == old(memo) && forall(k, 0, len(input), m[k+1] == fn(m[k], input[k], k)) && r0 == m[len(input)]
+//@   ensures unchanged: unchanged(input)
+//@ func ReduceIndexed loop 0
+//@   ghostset m = store(m, i+1, memo)
+//@   invariant range: 0 <= i && i <= len(input)
+//@   invariant acc: m[0] == old(memo) && memo == m[i]
+//@   invariant steps: forall(k, 0, i, m[k+1] == fn(m[k], input[k], k))
+
+//@ func Reject
+//@   prop C03
+//@   ghost g (Array Int Int)
+//@   ghost pos (Array Int Int)
+//@   ghostset g = Filter_g
+//@   ghostset pos = Filter_pos
+//@   ensures sub: forall(j, 0, len(r0), 0 <= g[j] && g[j] < len(input) && r0[j] == input[g[j]] && !fn(input[g[j]], g[j]))
+//@   ensures mono: forall(j, 0, len(r0), forall(l, 0, j, g[l] < g[j]))
+//@   ensures all: forall(k, 0, len(input), !fn(input[k], k) ==> 0 <= pos[k] && pos[k] < len(r0) && g[pos[k]] == k)
+//@   ensures fresh: fresh(r0)
+//@   ensures unchanged: unchanged(input)
+
+//@ func Exists
+//@   prop C03
+//@   ensures def: r0 == exists(i, 0, len(list), list[i] == input)
+//@   ensures unchanged: unchanged(list)
+//@ func Exists loop 0
+//@   invariant none: forall(j, 0, _i, list[j] != input)
+
+//@ func Every
+//@   prop C03
+//@   ensures def: r0 == (f != nil && len(list) > 0 && forall(i, 0, len(list), f(list[i])))
+//@   ensures unchanged: unchanged(list)
+//@ func Every loop 0
+//@   invariant all: forall(j, 0, _i, f(list[j]))
+
+//@ func Some
+//@   prop C03
+//@   ensures def: r0 == (f != nil && exists(i, 0, len(list), f(list[i])))
+//@   ensures unchanged: unchanged(list)
+//@ func Some loop 0
+//@   invariant none: forall(j, 0, _i, !f(list[j]))
+
+//@ func IsEqual
+//@   prop C03
+//@   ensures def: len(list1) > 0 || len(list2) > 0 ==> r0 == (len(list1) == len(list2) && forall(i, 0, len(list1), list1[i] == list2[i]))
+//@   ensures unchanged: unchanged(list1) && unchanged(list2)
+//@ func IsEqual loop 0
+//@   invariant range: 0 <= i && i <= len1
+//@   invariant same: forall(j, 0, i, list1[j] == list2[j])
+
+//@ func Min
+//@   prop C03
+//@   ensures empty: len(list) == 0 ==> r0 == 0
+//@   ensures member: len(list) > 0 ==> exists(i, 0, len(list), list[i] == r0)
+//@   ensures bound: forall(i, 0, len(list), r0 <= list[i])
+//@   ensures unchanged: unchanged(list)
+//@ func Min loop 0
+//@   invariant member: exists(j, 0, len(list), list[j] == result)
+//@   invariant bound: forall(j, 0, _i, result <= list[j])
+
+//@ func Max
+//@   prop C03
+//@   ensures empty: len(list) == 0 ==> r0 == 0
+//@   ensures member: len(list) > 0 ==> exists(i, 0, len(list), list[i] == r0)
+//@   ensures bound: forall(i, 0, len(list), r0 >= list[i])
+//@   ensures unchanged: unchanged(list)
+//@ func Max loop 0
+//@   invariant member: exists(j, 0, len(list), list[j] == result)
+//@   invariant bound: forall(j, 0, _i, result >= list[j])
+
+//@ func MinMax
+//@   prop C03
+//@   ensures empty: len(list) == 0 ==> r0 == 0 && r1 == 0
+//@   ensures member: len(list) > 0 ==> exists(i, 0, len(list), list[i] == r0) && exists(i, 0, len(list), list[i] == r1)
+//@   ensures bound: forall(i, 0, len(list), r0 <= list[i] && list[i] <= r1)
+//@   ensures unchanged: unchanged(list)
+//@ func MinMax loop 0
+//@   invariant member: exists(j, 0, len(list), list[j] == min) && exists(j, 0, len(list), list[j] == max)
+//@   invariant bound: forall(j, 0, _i, min <= list[j] && list[j] <= max)
+//@   invariant order: min <= max
+
+//@ func DropEq
+//@   prop C03
+//@   ghost g (Array Int Int)
+//@   ghost pos (Array Int Int)
+//@   ensures sub: forall(j, 0, len(r0), 0 <= g[j] && g[j] < len(list) && r0[j] == list[g[j]] && list[g[j]] != num)
+//@   ensures mono: forall(j, 0, len(r0), forall(l, 0, j, g[l] < g[j]))
+//@   ensures all: forall(k, 0, len(list), list[k] != num ==> 0 <= pos[k] && pos[k] < len(r0) && g[pos[k]] == k)
+//@   ensures fresh: freshOrNil(r0)
+//@   ensures unchanged: unchanged(list)
+//@ func DropEq loop 0
+//@   ghostset g = ite(list[_i] != num, store(g, len(newList)-1, _i), g)
+//@   ghostset pos = ite(list[_i] != num, store(pos, _i, len(newList)-1), pos)
+//@   invariant n: len(newList) <= _i && freshOrNil(newList)
+//@   invariant sub: forall(j, 0, len(newList), 0 <= g[j] && g[j] < _i && newList[j] == list[g[j]] && list[g[j]] != num)
+//@   invariant mono: forall(j, 0, len(newList), forall(l, 0, j, g[l] < g[j]))
+//@   invariant all: forall(k, 0, _i, list[k] != num ==> 0 <= pos[k] && pos[k] < len(newList) && g[pos[k]] == k)
+
+//@ func Dedupe
+//@   prop C03
+//@   ghost g (Array Int Int)
+//@   ghost pos (Array Int Int)
+//@   ensures sub: forall(j, 0, len(r0), 0 <= g[j] && g[j] < len(list) && r0[j] == list[g[j]] && !(g[j]+1 < len(list) && list[g[j]] == list[g[j]+1]))
+//@   ensures mono: forall(j, 0, len(r0), forall(l, 0, j, g[l] < g[j]))
+//@   ensures all: forall(k, 0, len(list), !(k+1 < len(list) && list[k] == list[k+1]) ==> 0 <= pos[k] && pos[k] < len(r0) && g[pos[k]] == k)
+//@   ensures fresh: freshOrNil(r0)
+//@   ensures unchanged: unchanged(list)
+//@ func Dedupe loop 0
+//@   ghostset g = ite(!(i+1 < lenList && list[i] == list[i+1]), store(g, len(newList)-1, i), g)
+//@   ghostset pos = ite(!(i+1 < lenList && list[i] == list[i+1]), store(pos, i, len(newList)-1), pos)
+//@   invariant range: 0 <= i && i <= lenList && lenList == len(list)
+//@   invariant n: len(newList) <= i && freshOrNil(newList)
+//@   invariant sub: forall(j, 0, len(newList), 0 <= g[j] && g[j] < i && newList[j] == list[g[j]] && !(g[j]+1 < len(list) && list[g[j]] == list[g[j]+1]))
+//@   invariant mono: forall(j, 0, len(newList), forall(l, 0, j, g[l] < g[j]))
+//@   invariant all: forall(k, 0, i, !(k+1 < len(list) && list[k] == list[k+1]) ==> 0 <= pos[k] && pos[k] < len(newList) && g[pos[k]] == k)
+
+//@ func DropWhile
+//@   prop C03
+//@   ensures nilf: f == nil ==> len(r0) == 0
+//@   ensures cut: f != nil ==> len(r0) <= len(list) && forall(j, 0, len(list)-len(r0), f(list[j])) && (len(r0) > 0 ==> !f(list[len(list)-len(r0)]))
+//@   ensures suffix: f != nil ==> forall(j, 0, len(r0), r0[j] == list[len(list)-len(r0)+j])
+//@   ensures fresh: freshOrNil(r0)
+//@   ensures unchanged: unchanged(list)
+//@ func DropWhile loop 0
+//@   invariant prefix: forall(j, 0, _i, f(list[j]))
+//@   invariant nothing: len(newList) == 0 && newList == nil
+//@ func DropWhile loop 1
+//@   invariant shape: 0 <= j && j <= len(newList) && len(newList) <= listLen && listLen == len(list) && i == listLen - len(newList) + j && fresh(newList) && len(newList) > 0
+//@   invariant prefix: forall(l, 0, listLen - len(newList), f(list[l])) && !f(list[listLen - len(newList)])
+//@   invariant copied: forall(l, 0, j, newList[l] == list[listLen - len(newList) + l])
+
+//@ func Prepend
+//@   prop C03
+//@   ensures len: len(r0) == len(list) + 1
+//@   ensures head: r0[0] == element
+//@   ensures tail: forall(i, 0, len(list), r0[i+1] == list[i])
+//@   ensures fresh: fresh(r0)
+//@   ensures unchanged: unchanged(list)
+
+//@ func DuplicateSlice
+//@   prop C03
+//@   ensures same: seqeq(r0, list)
+//@   ensures fresh: fresh(r0)
+//@   ensures unchanged: unchanged(list)
+
+// ---- map-based helpers. In a range-over-map loop: _i = number of keys visited so far, _visited(x) = "x has been visited",
+//      _keyat(j) = j-th key visited, _n = number of keys at loop entry.
+
+//@ func SliceToMap
+//@   prop C03
+//@   ensures dom: forallv(x, has(r0, x) == exists(i, 0, len(input), input[i] == x))
+//@   ensures val: forallv(x, has(r0, x) ==> r0[x] == defaultValue)
+//@   ensures fresh: fresh(r0)
+//@   ensures unchanged: unchanged(input)
+//@ func SliceToMap loop 0
+//@   invariant dom: forallv(x, has(resultMap, x) == exists(i, 0, _i, input[i] == x))
+//@   invariant val: forallv(x, has(resultMap, x) ==> resultMap[x] == defaultValue)
+//@   invariant fresh: fresh(resultMap)
+
+//@ func Keys
+//@   prop C03
+//@   ensures len: len(r0) == len(m)
+//@   ensures members: forall(i, 0, len(r0), has(m, r0[i]))
+//@   ensures injective: forall(i, 0, len(r0), forall(j, 0, i, r0[j] != r0[i]))
+//@   ensures onto: forallv(x, has(m, x) ==> exists(i, 0, len(r0), r0[i] == x))
+//@   ensures fresh: fresh(r0)
+//@   ensures unchanged: unchangedmap(m)
+//@ func Keys loop 0
+//@   invariant count: i == _i && len(keys) == _n && _n == len(m) && fresh(keys)
+//@   invariant prefix: forall(j, 0, _i, keys[j] == _keyat(j))
+
+//@ func Values
+//@   prop C03
+//@   ensures len: len(r0) == len(m)
+//@   ensures members: forall(i, 0, len(r0), existsv(x, has(m, x) && m[x] == r0[i]))
+//@   ensures onto: forallv(x, has(m, x) ==> exists(i, 0, len(r0), r0[i] == m[x]))
+//@   ensures fresh: fresh(r0)
+//@   ensures unchanged: unchangedmap(m)
+//@ func Values loop 0
+//@   invariant count: i == _i && len(keys) == _n && _n == len(m) && fresh(keys)
+//@   invariant prefix: forall(j, 0, _i, keys[j] == m[_keyat(j)])
+
+//@ func DuplicateMap
+//@   prop C03
+//@   ensures dom: forallv(x, has(r0, x) == has(input, x))
+//@   ensures val: forallv(x, has(input, x) ==> r0[x] == input[x])
+//@   ensures fresh: fresh(r0)
+//@   ensures unchanged: unchangedmap(input)
+//@ func DuplicateMap loop 0
+//@   invariant dom: forallv(x, has(newOne, x) == _visited(x))
+//@   invariant val: forallv(x, has(newOne, x) ==> newOne[x] == input[x])
+//@   invariant fresh: fresh(newOne)
+
+//@ func Merge
+//@   prop C03
+//@   ensures dom: forallv(x, has(r0, x) == (has(map1, x) || has(map2, x)))
+//@   ensures second-wins: forallv(x, has(map2, x) ==> r0[x] == map2[x])
+//@   ensures first: forallv(x, has(map1, x) && !has(map2, x) ==> r0[x] == map1[x])
+//@   ensures fresh: fresh(r0)
+//@   ensures unchanged: unchangedmap(map1) && unchangedmap(map2)
+//@ func Merge loop 0
+//@   invariant dom: forallv(x, has(newMap, x) == _visited(x))
+//@   invariant val: forallv(x, has(newMap, x) ==> newMap[x] == map2[x])
+//@   invariant fresh: fresh(newMap)
+//@ func Merge loop 1
+//@   invariant dom: forallv(x, has(newMap, x) == _visited(x))
+//@   invariant val: forallv(x, has(newMap, x) ==> newMap[x] == map1[x])
+//@   invariant fresh: fresh(newMap)
+//@ func Merge loop 2
+//@   invariant dom: forallv(x, has(newMap, x) == _visited(x))
+//@   invariant val: forallv(x, has(newMap, x) ==> newMap[x] == map1[x])
+//@   invariant fresh: fresh(newMap)
+//@ func Merge loop 3
+//@   invariant dom: forallv(x, has(newMap, x) == (has(map1, x) || _visited(x)))
+//@   invariant val2: forallv(x, _visited(x) ==> newMap[x] == map2[x])
+//@   invariant val1: forallv(x, has(map1, x) && !_visited(x) ==> newMap[x] == map1[x])
+//@   invariant fresh: fresh(newMap)
+
+//@ func Zip
+//@   prop C03
+//@   ensures empty: len(list1) == 0 || len(list2) == 0 ==> forallv(x, !has(r0, x))
+//@   ensures dom: len(list1) > 0 && len(list2) > 0 ==> forallv(x, has(r0, x) == exists(i, 0, ite(len(list1) < len(list2), len(list1), len(list2)), list1[i] == x))
+//@   ensures val: len(list1) > 0 && len(list2) > 0 ==> forall(i, 0, ite(len(list1) < len(list2), len(list1), len(list2)), forall(j, i+1, ite(len(list1) < len(list2), len(list1), len(list2)), list1[j] != list1[i]) ==> r0[list1[i]] == list2[i])
+//@   ensures fresh: fresh(r0)
+//@   ensures unchanged: unchanged(list1) && unchanged(list2)
+//@ func Zip loop 0
+//@   invariant range: 0 <= i && i <= minLen && minLen <= len1 && minLen <= len2 && len1 == len(list1) && len2 == len(list2) && (minLen == len1 || minLen == len2)
+//@   invariant dom: forallv(x, has(newMap, x) == exists(k, 0, i, list1[k] == x))
+//@   invariant val: forall(k, 0, i, forall(j, k+1, i, list1[j] != list1[k]) ==> newMap[list1[k]] == list2[k])
+//@   invariant fresh: fresh(newMap)
+
+//@ func IsDistinct
+//@   prop C03
+//@   ensures def: len(list) > 0 ==> r0 == forall(i, 0, len(list), forall(j, 0, i, list[j] != list[i]))
+//@   ensures unchanged: unchanged(list)
+//@ func IsDistinct loop 0
+//@   invariant seen: forallv(x, has(s, x) == exists(j, 0, _i, list[j] == x))
+//@   invariant distinct: forall(i, 0, _i, forall(j, 0, i, list[j] != list[i]))
+//@   invariant fresh: fresh(s)
+
+//@ func IsEqualMap
+//@   prop C03
+//@   ensures def: len(map1) > 0 || len(map2) > 0 ==> r0 == (len(map1) == len(map2) && forallv(x, has(map1, x) ==> has(map2, x) && map2[x] == map1[x]))
+//@   ensures unchanged: unchangedmap(map1) && unchangedmap(map2)
+//@ func IsEqualMap loop 0
+//@   invariant all: forallv(x, _visited(x) ==> has(map2, x) && map2[x] == map1[x])
+//@ func IsEqualMap loop 1
+//@   invariant notyet: !found ==> forallv(x, _visited(x) ==> !(x == k1 && map2[x] == v1))
+//@   invariant found: found ==> has(map2, k1) && map2[k1] == v1
+
+//@ func Distinct
+//@   prop C03
+//@   ghost g (Array Int Int)
+//@   ghost pos (Array Int Int)
+//@   ensures sub: forall(j, 0, len(r0), 0 <= g[j] && g[j] < len(list) && r0[j] == list[g[j]] && forall(l, 0, g[j], list[l] != list[g[j]]))
+//@   ensures mono: forall(j, 0, len(r0), forall(l, 0, j, g[l] < g[j]))
+//@   ensures all: forall(k, 0, len(list), forall(l, 0, k, list[l] != list[k]) ==> 0 <= pos[k] && pos[k] < len(r0) && g[pos[k]] == k)
+//@   ensures fresh: fresh(r0)
+//@   ensures unchanged: unchanged(list)
+//@ func Distinct loop 0
+//@   ghostset g = ite(forall(l, 0, _i, list[l] != list[_i]), store(g, resultIndex-1, _i), g)
+//@   ghostset pos = ite(forall(l, 0, _i, list[l] != list[_i]), store(pos, _i, resultIndex-1), pos)
+//@   invariant n: 0 <= resultIndex && resultIndex <= _i && len(result) == len(list) && maxLen == len(list) && fresh(result) && fresh(s)
+//@   invariant seen: forallv(x, s[x] == exists(j, 0, _i, list[j] == x))
+//@   invariant sub: forall(j, 0, resultIndex, 0 <= g[j] && g[j] < _i && result[j] == list[g[j]] && forall(l, 0, g[j], list[l] != list[g[j]]))
+//@   invariant mono: forall(j, 0, resultIndex, forall(l, 0, j, g[l] < g[j]))
+//@   invariant all: forall(k, 0, _i, forall(l, 0, k, list[l] != list[k]) ==> 0 <= pos[k] && pos[k] < resultIndex && g[pos[k]] == k)
+
+//@ func UniqBy
+//@   prop C03
+//@   ghost g (Array Int Int)
+//@   ghost pos (Array Int Int)
+//@   ensures sub: forall(j, 0, len(r0), 0 <= g[j] && g[j] < len(list) && r0[j] == list[g[j]] && forall(l, 0, g[j], identify(list[l]) != identify(list[g[j]])))
+//@   ensures mono: forall(j, 0, len(r0), forall(l, 0, j, g[l] < g[j]))
+//@   ensures all: forall(k, 0, len(list), forall(l, 0, k, identify(list[l]) != identify(list[k])) ==> 0 <= pos[k] && pos[k] < len(r0) && g[pos[k]] == k)
+//@   ensures fresh: fresh(r0)
+//@   ensures unchanged: unchanged(list)
+//@ func UniqBy loop 0
+//@   ghostset g = ite(forall(l, 0, _i, identify(list[l]) != identify(list[_i])), store(g, len(result)-1, _i), g)
+//@   ghostset pos = ite(forall(l, 0, _i, identify(list[l]) != identify(list[_i])), store(pos, _i, len(result)-1), pos)
+//@   invariant n: len(result) <= _i && fresh(result) && fresh(identifiers)
+//@   invariant seen: forallv(x, has(identifiers, x) == exists(j, 0, _i, identify(list[j]) == x))
+//@   invariant sub: forall(j, 0, len(result), 0 <= g[j] && g[j] < _i && result[j] == list[g[j]] && forall(l, 0, g[j], identify(list[l]) != identify(list[g[j]])))
+//@   invariant mono: forall(j, 0, len(result), forall(l, 0, j, g[l] < g[j]))
+//@   invariant all: forall(k, 0, _i, forall(l, 0, k, identify(list[l]) != identify(list[k])) ==> 0 <= pos[k] && pos[k] < len(result) && g[pos[k]] == k)
+
+//@ func Partition
+//@   prop C03
+//@   ghost g1 (Array Int Int)
+//@   ghost pos1 (Array Int Int)
+//@   ghost g2 (Array Int Int)
+//@   ghost pos2 (Array Int Int)
+//@   ensures two: len(r0) == 2 && fresh(r0) && fresh(r0[0]) && fresh(r0[1])
+//@   ensures sub1: forall(j, 0, len(r0[0]), 0 <= g1[j] && g1[j] < len(list) && r0[0][j] == list[g1[j]] && predicate(list[g1[j]]))
+//@   ensures mono1: forall(j, 0, len(r0[0]), forall(l, 0, j, g1[l] < g1[j]))
+//@   ensures all1: forall(k, 0, len(list), predicate(list[k]) ==> 0 <= pos1[k] && pos1[k] < len(r0[0]) && g1[pos1[k]] == k)
+//@   ensures sub2: forall(j, 0, len(r0[1]), 0 <= g2[j] && g2[j] < len(list) && r0[1][j] == list[g2[j]] && !predicate(list[g2[j]]))
+//@   ensures mono2: forall(j, 0, len(r0[1]), forall(l, 0, j, g2[l] < g2[j]))
+//@   ensures all2: forall(k, 0, len(list), !predicate(list[k]) ==> 0 <= pos2[k] && pos2[k] < len(r0[1]) && g2[pos2[k]] == k)
+//@   ensures unchanged: unchanged(list)
+//@ func Partition loop 0
+//@   ghostset g1 = ite(predicate(list[_i]), store(g1, len(resultTrue)-1, _i), g1)
+//@   ghostset pos1 = ite(predicate(list[_i]), store(pos1, _i, len(resultTrue)-1), pos1)
+//@   ghostset g2 = ite(!predicate(list[_i]), store(g2, len(resultFalse)-1, _i), g2)
+//@   ghostset pos2 = ite(!predicate(list[_i]), store(pos2, _i, len(resultFalse)-1), pos2)
+//@   invariant n: len(resultTrue) <= _i && len(resultFalse) <= _i && fresh(resultTrue) && fresh(resultFalse) && base(resultTrue) != base(resultFalse)
+//@   invariant sub1: forall(j, 0, len(resultTrue), 0 <= g1[j] && g1[j] < _i && resultTrue[j] == list[g1[j]] && predicate(list[g1[j]]))
+//@   invariant mono1: forall(j, 0, len(resultTrue), forall(l, 0, j, g1[l] < g1[j]))
+//@   invariant all1: forall(k, 0, _i, predicate(list[k]) ==> 0 <= pos1[k] && pos1[k] < len(resultTrue) && g1[pos1[k]] == k)
+//@   invariant sub2: forall(j, 0, len(resultFalse), 0 <= g2[j] && g2[j] < _i && resultFalse[j] == list[g2[j]] && !predicate(list[g2[j]]))
+//@   invariant mono2: forall(j, 0, len(resultFalse), forall(l, 0, j, g2[l] < g2[j]))
+//@   invariant all2: forall(k, 0, _i, !predicate(list[k]) ==> 0 <= pos2[k] && pos2[k] < len(resultFalse) && g2[pos2[k]] == k)
+
+// Concat: the ghost array start holds the offset at which each argument slice begins in the result.
+//@ func Concat
+//@   prop C03
+//@   ghost start (Array Int Int)
+//@   ghostinit start = store(start, 0, len(mine))
+//@   ensures offsets: start[0] == len(mine) && forall(k, 0, len(slices), start[k+1] == start[k] + len(slices[k]))
+//@   ensures len: len(r0) == start[len(slices)]
+//@   ensures mine: forall(i, 0, len(mine), r0[i] == mine[i])
+//@   ensures rest: forall2(k, 0, len(slices), j, 0, len(slices[k]), r0[start[k]+j] == slices[k][j])
+//@   ensures fresh: fresh(r0)
+//@   ensures unchanged: unchanged(mine)
+//@ func Concat loop 0
+//@   ghostset start = store(start, _i+1, totalLen)
+//@   invariant sums: start[0] == len(mine) && mineLen == len(mine) && totalLen == start[_i] && forall(k, 0, _i, start[k+1] == start[k] + len(slices[k]))
+//@   invariant mono: forall2(a, 0, _i+1, b, a, _i+1, start[a] <= start[b])
+//@ func Concat loop 1
+//@   invariant shape: len(newOne) == totalLen && fresh(newOne)
+//@   invariant copied: forall(j, 0, _i, newOne[j] == mine[j])
+//@ func Concat loop 2
+//@   invariant shape: len(newOne) == totalLen && fresh(newOne) && totalIndex == start[_i]
+//@   invariant mine: forall(j, 0, len(mine), newOne[j] == mine[j])
+//@   invariant rest: forall2(k, 0, _i, j, 0, len(slices[k]), newOne[start[k]+j] == slices[k][j])
+//@ func Concat loop 3
+//@   invariant shape: len(newOne) == totalLen && fresh(newOne) && targetLen == len(target) && target == slices[_i2] && totalIndex == start[_i2]
+//@   invariant mine: forall(l, 0, len(mine), newOne[l] == mine[l])
+//@   invariant rest: forall2(k, 0, _i2, l, 0, len(slices[k]), newOne[start[k]+l] == slices[k][l])
+//@   invariant cur: forall(l, 0, _i, newOne[totalIndex+l] == target[l])
+
+//@ func Flatten
+//@   prop C03
+//@   ghost start (Array Int Int)
+//@   ghostset start = Concat_start
+//@   ensures offsets: start[0] == 0 && forall(k, 0, len(list), start[k+1] == start[k] + len(list[k]))
+//@   ensures len: len(r0) == start[len(list)]
+//@   ensures elems: forall2(k, 0, len(list), j, 0, len(list[k]), r0[start[k]+j] == list[k][j])
+//@   ensures fresh: fresh(r0)
+
+// Range (integer instantiations; T is modelled as a mathematical integer, so "higher+hop is representable" is assumed)
+//@ func Range
+//@   prop C03
+//@   ensures badhop: len(hops) > 0 && hops[0] <= 0 ==> len(r0) == 0
+//@   ensures empty: lower >= higher ==> len(r0) == 0
+//@   ensures first: lower < higher && !(len(hops) > 0 && hops[0] <= 0) ==> len(r0) > 0 && r0[0] == lower
+//@   ensures step: forall(k, 0, len(r0)-1, r0[k+1] == r0[k] + ite(len(hops) > 0, hops[0], 1))
+//@   ensures last: len(r0) > 0 ==> r0[len(r0)-1] < higher && r0[len(r0)-1] + ite(len(hops) > 0, hops[0], 1) >= higher
+//@   ensures fresh: freshOrNil(r0)
+//@ func Range loop 0
+//@   invariant hop: hop > 0 && hop == ite(len(hops) > 0, hops[0], 1) && lower < higher && freshOrNil(l)
+//@   invariant first: (len(l) == 0 ==> v == lower) && (len(l) > 0 ==> l[0] == lower && v == l[len(l)-1] + hop && l[len(l)-1] < higher)
+//@   invariant step: forall(k, 0, len(l)-1, l[k+1] == l[k] + hop)
+
+// SplitEvery and GroupBy: safety (no panic, inputs untouched) and the guarded corner only; the grouping itself is not specified here.
+//@ func SplitEvery
+//@   prop C03
+//@   ensures corner: size <= 0 || len(list) <= 1 ==> len(r0) == 1 && r0[0] == list
+//@   ensures unchanged: unchanged(list)
+//@ func SplitEvery loop 0
+//@   invariant fresh: fresh(result) && fresh(currentGroup)
+
+//@ func GroupBy
+//@   prop C03
+//@   ensures fresh: fresh(r0)
+//@   ensures unchanged: unchanged(list)
+//@ func GroupBy loop 0
+//@   invariant fresh: fresh(result) && forallv(x, freshOrNil(result[x]))
+
+// ===================================================================================================
+// C06 - LinkedListQueue is a deque for every history: representation invariant + abstract transitions
+//
+// Ghost state (existential witnesses of the invariant, passed by name between the methods):
+//   nodes, lo : the list is nodes[lo .. lo+count)          pn, plo : the free list is pn[plo .. plo+nodeCount)
+//   st[r]     : 1 = r is in the list, 2 = r is in the free list, 3 = r is being released, else not referenced
+//   ix[r]     : the index of r in nodes / pn (makes both sequences injective)
+// The abstract deque is  *nodes[lo+i].Val  for i in [0,count).
+
+//@ define LQ_LIST(nodes, lo, hi, st, ix) = forall(j, lo, hi, nodes[j] != nil && st[nodes[j]] == 1 && ix[nodes[j]] == j && nodes[j].Val != nil && (j+1 < hi ==> nodes[j].Next == nodes[j+1]) && (j > lo ==> nodes[j].Prev == nodes[j-1]))
+//@ define LQ_ENDS(q, nodes, lo) = q.count >= 0 && (q.count == 0 ==> q.first == nil && q.last == nil) && (q.count > 0 ==> q.first == nodes[lo] && q.last == nodes[lo+q.count-1] && nodes[lo].Prev == nil && nodes[lo+q.count-1].Next == nil)
+//@ define LQ_FREE(pn, plo, phi, st, ix) = forall(j, plo, phi, pn[j] != nil && st[pn[j]] == 2 && ix[pn[j]] == j && (j+1 < phi ==> pn[j].Next == pn[j+1]))
+//@ define LQ_FREEENDS(q, pn, plo) = q.nodeCount >= 0 && (q.nodeCount == 0 ==> q.nodePoolFirst == nil) && (q.nodeCount > 0 ==> q.nodePoolFirst == pn[plo] && pn[plo+q.nodeCount-1].Next == nil)
+//@ define LQ_WF(q, nodes, lo, pn, plo, st, ix) = LQ_ENDS(q, nodes, lo) && LQ_LIST(nodes, lo, lo+q.count, st, ix) && LQ_FREEENDS(q, pn, plo) && LQ_FREE(pn, plo, plo+q.nodeCount, st, ix)
+//@ define LQ_SAME(nodes, lo, hi) = forall(j, lo, hi, nodes[j] == old(nodes[j]) && nodes[j].Val == old(nodes[j].Val) && *nodes[j].Val == old(*nodes[j].Val))
+//@ define LQ_LISTFIELDS(q) = q.count == old(q.count) && q.first == old(q.first) && q.last == old(q.last)
+//@ define LQ_EXISTED(nodes, lo, hi, pn, plo, phi) = forall(j, lo, hi, birth(nodes[j]) <= 0 && birth(nodes[j].Val) <= 0) && forall(j, plo, phi, birth(pn[j]) <= 0)
+//@ define POOLINV_DoublyListItem(p) = p.Next == nil && p.Prev == nil && p.Val == nil
+
+//@ func (LinkedListQueue).generateNode
+//@   prop C06
+//@   opt poolfresh=st
+//@   modifies q, ite(q.nodeCount > 0, pn[plo], nil)
+//@   ghost nodes (Array Int Ref) of q.first
+//@   ghost lo Int
+//@   ghost pn (Array Int Ref) of q.first
+//@   ghost plo Int
+//@   ghost st (Array Ref Int)
+//@   ghost ix (Array Ref Int)
+//@   requires q != nil && LQ_FREEENDS(q, pn, plo) && LQ_FREE(pn, plo, plo+q.nodeCount, st, ix)
+//@   assume forall(j, plo, plo+q.nodeCount, birth(pn[j]) <= 0)
+//@   ghostset st = ite(old(q.nodeCount) > 0, store(st, r0, 0), st)
+//@   ghostset plo = ite(old(q.nodeCount) > 0, plo+1, plo)
+//@   ensures node: r0 != nil && st[r0] == 0 && r0.Next == nil && r0.Prev == nil
+//@   ensures popped: old(q.nodeCount) > 0 ==> r0 == old(pn[plo]) && old(st[r0]) == 2
+//@   ensures unreferenced: old(q.nodeCount) == 0 ==> old(st[r0]) == 0
+//@   ensures other-status: forallr(r, r != r0 ==> st[r] == old(st[r]))
+//@   ensures ghosts: nodes == old(nodes) && lo == old(lo) && pn == old(pn) && ix == old(ix)
+//@   ensures list-fields: LQ_LISTFIELDS(q)
+//@   ensures free-ends: LQ_FREEENDS(q, pn, plo)
+//@   ensures free: LQ_FREE(pn, plo, plo+q.nodeCount, st, ix)
+
+//@ func (LinkedListQueue).recycleNode
+//@   prop C06
+//@   modifies q, node
+//@   ghost nodes (Array Int Ref) of q.first
+//@   ghost lo Int
+//@   ghost pn (Array Int Ref) of q.first
+//@   ghost plo Int
+//@   ghost st (Array Ref Int)
+//@   ghost ix (Array Ref Int)
+//@   requires q != nil && node != nil && st[node] != 2 && LQ_FREEENDS(q, pn, plo) && LQ_FREE(pn, plo, plo+q.nodeCount, st, ix)
+//@   assume forall(j, plo, plo+q.nodeCount, birth(pn[j]) <= 0)
+//@   ghostset plo = plo-1
+//@   ghostset pn = store(pn, plo, node)
+//@   ghostset st = store(st, node, 2)
+//@   ghostset ix = store(ix, node, plo)
+//@   ensures pushed: q.nodeCount == old(q.nodeCount)+1 && plo == old(plo)-1 && pn == store(old(pn), plo, node) && st == store(old(st), node, 2) && ix == store(old(ix), node, plo)
+//@   ensures cleared: node.Val == nil && node.Prev == nil
+//@   ensures ghosts: nodes == old(nodes) && lo == old(lo)
+//@   ensures list-fields: LQ_LISTFIELDS(q)
+//@   ensures free-ends: LQ_FREEENDS(q, pn, plo)
+//@   ensures free: LQ_FREE(pn, plo, plo+q.nodeCount, st, ix)
+
+//@ func (LinkedListQueue).Offer
+//@   prop C06
+//@   opt frame=off
+//@   modifies all
+//@   ghost nodes (Array Int Ref) of q.first
+//@   ghost lo Int
+//@   ghost pn (Array Int Ref) of q.first
+//@   ghost plo Int
+//@   ghost st (Array Ref Int)
+//@   ghost ix (Array Ref Int)
+//@   requires q != nil && LQ_WF(q, nodes, lo, pn, plo, st, ix)
+//@   assume LQ_EXISTED(nodes, lo, lo+q.count, pn, plo, plo+q.nodeCount)
+//@   ghostset nodes = store(nodes, lo+q.count-1, q.last)
+//@   ghostset st = store(st, q.last, 1)
+//@   ghostset ix = store(ix, q.last, lo+q.count-1)
+//@   ensures result: r0 == nil && q.count == old(q.count)+1 && lo == old(lo)
+//@   ensures appended: *nodes[lo+q.count-1].Val == val
+//@   ensures others: LQ_SAME(nodes, lo, lo+q.count-1)
+//@   ensures wf-ends: LQ_ENDS(q, nodes, lo)
+//@   ensures wf-list: LQ_LIST(nodes, lo, lo+q.count, st, ix)
+//@   ensures wf-free-ends: LQ_FREEENDS(q, pn, plo)
+//@   ensures wf-free: LQ_FREE(pn, plo, plo+q.nodeCount, st, ix)
+
+//@ func (LinkedListQueue).Unshift
+//@   prop C06
+//@   opt frame=off
+//@   modifies all
+//@   ghost nodes (Array Int Ref) of q.first
+//@   ghost lo Int
+//@   ghost pn (Array Int Ref) of q.first
+//@   ghost plo Int
+//@   ghost st (Array Ref Int)
+//@   ghost ix (Array Ref Int)
+//@   requires q != nil && LQ_WF(q, nodes, lo, pn, plo, st, ix)
+//@   assume LQ_EXISTED(nodes, lo, lo+q.count, pn, plo, plo+q.nodeCount)
+//@   ghostset lo = lo-1
+//@   ghostset nodes = store(nodes, lo, q.first)
+//@   ghostset st = store(st, q.first, 1)
+//@   ghostset ix = store(ix, q.first, lo)
+//@   ensures result: r0 == nil && q.count == old(q.count)+1 && lo == old(lo)-1
+//@   ensures prepended: *nodes[lo].Val == val
+//@   ensures others: LQ_SAME(nodes, lo+1, lo+q.count)
+//@   ensures wf-ends: LQ_ENDS(q, nodes, lo)
+//@   ensures wf-list: LQ_LIST(nodes, lo, lo+q.count, st, ix)
+//@   ensures wf-free-ends: LQ_FREEENDS(q, pn, plo)
+//@   ensures wf-free: LQ_FREE(pn, plo, plo+q.nodeCount, st, ix)
+
+//@ func (LinkedListQueue).Shift
+//@   prop C06
+//@   opt frame=off
+//@   modifies all
+//@   ghost nodes (Array Int Ref) of q.first
+//@   ghost lo Int
+//@   ghost pn (Array Int Ref) of q.first
+//@   ghost plo Int
+//@   ghost st (Array Ref Int)
+//@   ghost ix (Array Ref Int)
+//@   requires q != nil && LQ_WF(q, nodes, lo, pn, plo, st, ix)
+//@   assume LQ_EXISTED(nodes, lo, lo+q.count, pn, plo, plo+q.nodeCount)
+//@   ghostset lo = ite(old(q.count) > 0, lo+1, lo)
+//@   ensures empty: old(q.count) == 0 ==> r1 == ErrQueueIsEmpty && q.count == 0 && lo == old(lo)
+//@   ensures head: old(q.count) > 0 ==> r1 == nil && r0 == old(*nodes[lo].Val) && q.count == old(q.count)-1 && lo == old(lo)+1
+//@   ensures others: nodes == old(nodes) && LQ_SAME(nodes, lo, lo+q.count)
+//@   ensures wf-ends: LQ_ENDS(q, nodes, lo)
+//@   ensures wf-list: LQ_LIST(nodes, lo, lo+q.count, st, ix)
+//@   ensures wf-free-ends: LQ_FREEENDS(q, pn, plo)
+//@   ensures wf-free: LQ_FREE(pn, plo, plo+q.nodeCount, st, ix)
+
+//@ func (LinkedListQueue).Pop
+//@   prop C06
+//@   opt frame=off
+//@   modifies all
+//@   ghost nodes (Array Int Ref) of q.first
+//@   ghost lo Int
+//@   ghost pn (Array Int Ref) of q.first
+//@   ghost plo Int
+//@   ghost st (Array Ref Int)
+//@   ghost ix (Array Ref Int)
+//@   requires q != nil && LQ_WF(q, nodes, lo, pn, plo, st, ix)
+//@   assume LQ_EXISTED(nodes, lo, lo+q.count, pn, plo, plo+q.nodeCount)
+//@   ensures empty: old(q.count) == 0 ==> r1 == ErrStackIsEmpty && q.count == 0
+//@   ensures tail: old(q.count) > 0 ==> r1 == nil && r0 == old(*nodes[lo+q.count-1].Val) && q.count == old(q.count)-1
+//@   ensures others: nodes == old(nodes) && lo == old(lo) && LQ_SAME(nodes, lo, lo+q.count)
+//@   ensures wf-ends: LQ_ENDS(q, nodes, lo)
+//@   ensures wf-list: LQ_LIST(nodes, lo, lo+q.count, st, ix)
+//@   ensures wf-free-ends: LQ_FREEENDS(q, pn, plo)
+//@   ensures wf-free: LQ_FREE(pn, plo, plo+q.nodeCount, st, ix)
+
+//@ func (LinkedListQueue).Peek
+//@   prop C06
+//@   pure
+//@   ghost nodes (Array Int Ref) of q.first
+//@   ghost lo Int
+//@   ghost pn (Array Int Ref) of q.first
+//@   ghost plo Int
+//@   ghost st (Array Ref Int)
+//@   ghost ix (Array Ref Int)
+//@   requires q != nil && LQ_WF(q, nodes, lo, pn, plo, st, ix)
+//@   assume LQ_EXISTED(nodes, lo, lo+q.count, pn, plo, plo+q.nodeCount)
+//@   ensures empty: q.count == 0 ==> r1 == ErrQueueIsEmpty
+//@   ensures head: q.count > 0 ==> r1 == nil && r0 == *nodes[lo].Val
+
+//@ func (LinkedListQueue).Count
+//@   prop C06
+//@   pure
+//@   requires q != nil
+//@   ensures def: r0 == q.count
+
+// forwarders: same transitions as the method they delegate to
+//@ func (LinkedListQueue).Put
+//@   prop C06
+//@   opt frame=off
+//@   modifies all
+//@   ghost nodes (Array Int Ref) of q.first
+//@   ghost lo Int
+//@   ghost pn (Array Int Ref) of q.first
+//@   ghost plo Int
+//@   ghost st (Array Ref Int)
+//@   ghost ix (Array Ref Int)
+//@   requires q != nil && LQ_WF(q, nodes, lo, pn, plo, st, ix)
+//@   assume LQ_EXISTED(nodes, lo, lo+q.count, pn, plo, plo+q.nodeCount)
+//@   ensures result: r0 == nil && q.count == old(q.count)+1 && lo == old(lo)
+//@   ensures appended: *nodes[lo+q.count-1].Val == val
+//@   ensures others: LQ_SAME(nodes, lo, lo+q.count-1)
+//@   ensures wf-ends: LQ_ENDS(q, nodes, lo)
+//@   ensures wf-list: LQ_LIST(nodes, lo, lo+q.count, st, ix)
+//@   ensures wf-free-ends: LQ_FREEENDS(q, pn, plo)
+//@   ensures wf-free: LQ_FREE(pn, plo, plo+q.nodeCount, st, ix)
+
+//@ func (LinkedListQueue).Push
+//@   prop C06
+//@   opt frame=off
+//@   modifies all
+//@   ghost nodes (Array Int Ref) of q.first
+//@   ghost lo Int
+//@   ghost pn (Array Int Ref) of q.first
+//@   ghost plo Int
+//@   ghost st (Array Ref Int)
+//@   ghost ix (Array Ref Int)
+//@   requires q != nil && LQ_WF(q, nodes, lo, pn, plo, st, ix)
+//@   assume LQ_EXISTED(nodes, lo, lo+q.count, pn, plo, plo+q.nodeCount)
+//@   ensures result: r0 == nil && q.count == old(q.count)+1 && lo == old(lo)
+//@   ensures appended: *nodes[lo+q.count-1].Val == val
+//@   ensures others: LQ_SAME(nodes, lo, lo+q.count-1)
+//@   ensures wf-ends: LQ_ENDS(q, nodes, lo)
+//@   ensures wf-list: LQ_LIST(nodes, lo, lo+q.count, st, ix)
+//@   ensures wf-free-ends: LQ_FREEENDS(q, pn, plo)
+//@   ensures wf-free: LQ_FREE(pn, plo, plo+q.nodeCount, st, ix)
+
+//@ func (LinkedListQueue).Poll
+//@   prop C06
+//@   opt frame=off
+//@   modifies all
+//@   ghost nodes (Array Int Ref) of q.first
+//@   ghost lo Int
+//@   ghost pn (Array Int Ref) of q.first
+//@   ghost plo Int
+//@   ghost st (Array Ref Int)
+//@   ghost ix (Array Ref Int)
+//@   requires q != nil && LQ_WF(q, nodes, lo, pn, plo, st, ix)
+//@   assume LQ_EXISTED(nodes, lo, lo+q.count, pn, plo, plo+q.nodeCount)
+//@   ensures empty: old(q.count) == 0 ==> r1 == ErrQueueIsEmpty && q.count == 0 && lo == old(lo)
+//@   ensures head: old(q.count) > 0 ==> r1 == nil && r0 == old(*nodes[lo].Val) && q.count == old(q.count)-1 && lo == old(lo)+1
+//@   ensures others: nodes == old(nodes) && LQ_SAME(nodes, lo, lo+q.count)
+//@   ensures wf-ends: LQ_ENDS(q, nodes, lo)
+//@   ensures wf-list: LQ_LIST(nodes, lo, lo+q.count, st, ix)
+//@   ensures wf-free-ends: LQ_FREEENDS(q, pn, plo)
+//@   ensures wf-free: LQ_FREE(pn, plo, plo+q.nodeCount, st, ix)
+
+//@ func (LinkedListQueue).Take
+//@   prop C06
+//@   opt frame=off
+//@   modifies all
+//@   ghost nodes (Array Int Ref) of q.first
+//@   ghost lo Int
+//@   ghost pn (Array Int Ref) of q.first
+//@   ghost plo Int
+//@   ghost st (Array Ref Int)
+//@   ghost ix (Array Ref Int)
+//@   requires q != nil && LQ_WF(q, nodes, lo, pn, plo, st, ix)
+//@   assume LQ_EXISTED(nodes, lo, lo+q.count, pn, plo, plo+q.nodeCount)
+//@   ensures empty: old(q.count) == 0 ==> r1 == ErrQueueIsEmpty && q.count == 0 && lo == old(lo)
+//@   ensures head: old(q.count) > 0 ==> r1 == nil && r0 == old(*nodes[lo].Val) && q.count == old(q.count)-1 && lo == old(lo)+1
+//@   ensures others: nodes == old(nodes) && LQ_SAME(nodes, lo, lo+q.count)
+//@   ensures wf-ends: LQ_ENDS(q, nodes, lo)
+//@   ensures wf-list: LQ_LIST(nodes, lo, lo+q.count, st, ix)
+//@   ensures wf-free-ends: LQ_FREEENDS(q, pn, plo)
+//@   ensures wf-free: LQ_FREE(pn, plo, plo+q.nodeCount, st, ix)
+
+// a new queue is empty: count == 0 and no node referenced, which makes the invariant hold for any ghost witnesses
+//@ func NewLinkedListQueue
+//@   prop C06
+//@   ensures new: r0 != nil && fresh(r0) && r0.count == 0 && r0.nodeCount == 0 && r0.first == nil && r0.last == nil && r0.nodePoolFirst == nil
+
+//@ func (LinkedListQueue).Clear
+//@   prop C06
+//@   opt frame=off
+//@   modifies all
+//@   ghost nodes (Array Int Ref) of q.first
+//@   ghost lo Int
+//@   ghost pn (Array Int Ref) of q.first
+//@   ghost plo Int
+//@   ghost st (Array Ref Int)
+//@   ghost ix (Array Ref Int)
+//@   requires q != nil && LQ_WF(q, nodes, lo, pn, plo, st, ix)
+//@   assume LQ_EXISTED(nodes, lo, lo+q.count, pn, plo, plo+q.nodeCount)
+//@   ghostset pn = old(nodes)
+//@   ghostset plo = old(lo)
+//@   ghostset st = lamr(r, ite(old(st)[r] == 1, 2, ite(old(st)[r] == 2, 0, old(st)[r])))
+//@   ensures empty: q.count == 0 && q.nodeCount == old(q.count)
+//@   ensures wf-ends: LQ_ENDS(q, nodes, lo)
+//@   ensures wf-list: LQ_LIST(nodes, lo, lo+q.count, st, ix)
+//@   ensures wf-free-ends: LQ_FREEENDS(q, pn, plo)
+//@   ensures wf-free: LQ_FREE(pn, plo, plo+q.nodeCount, st, ix)
+
+// putAllIntoPool is inlined into its two callers; "keep" (a ghost of the caller) is the number of free nodes that stay.
+//@ func (LinkedListQueue).putAllIntoPool
+//@   prop C06
+//@   opt inline=true
+//@ func (LinkedListQueue).putAllIntoPool loop 0
+//@   invariant cursor: first == nil || (st[first] == 2 && plo+keep <= ix[first] && ix[first] < plo+old(q.nodeCount) && pn[ix[first]] == first)
+//@   invariant chain: forall(j, plo+keep, plo+old(q.nodeCount), first != nil && j >= ix[first] ==> pn[j] != nil && st[pn[j]] == 2 && ix[pn[j]] == j && (j+1 < plo+old(q.nodeCount) ==> pn[j].Next == pn[j+1]) && (j+1 == plo+old(q.nodeCount) ==> pn[j].Next == nil))
+//@   invariant kept: LQ_FREE(pn, plo, plo+keep, st, ix)
+//@   invariant list: LQ_ENDS(q, nodes, lo) && LQ_LIST(nodes, lo, lo+q.count, st, ix) && LQ_SAME(nodes, lo, lo+q.count)
+
+//@ func (LinkedListQueue).ClearNodePool
+//@   prop C06
+//@   opt frame=off
+//@   modifies all
+//@   ghost nodes (Array Int Ref) of q.first
+//@   ghost lo Int
+//@   ghost pn (Array Int Ref) of q.first
+//@   ghost plo Int
+//@   ghost st (Array Ref Int)
+//@   ghost ix (Array Ref Int)
+//@   ghost keep Int
+//@   ghostinit keep = 0
+//@   requires q != nil && LQ_WF(q, nodes, lo, pn, plo, st, ix)
+//@   assume LQ_EXISTED(nodes, lo, lo+q.count, pn, plo, plo+q.nodeCount)
+//@   ghostset st = lamr(r, ite(old(st)[r] == 2, 0, old(st)[r]))
+//@   ensures emptied: q.nodeCount == 0 && LQ_LISTFIELDS(q)
+//@   ensures others: nodes == old(nodes) && lo == old(lo) && LQ_SAME(nodes, lo, lo+q.count)
+//@   ensures wf-ends: LQ_ENDS(q, nodes, lo)
+//@   ensures wf-list: LQ_LIST(nodes, lo, lo+q.count, st, ix)
+//@   ensures wf-free-ends: LQ_FREEENDS(q, pn, plo)
+//@   ensures wf-free: LQ_FREE(pn, plo, plo+q.nodeCount, st, ix)
+
+//@ func (LinkedListQueue).KeepNodePoolCount
+//@   prop C06
+//@   opt frame=off
+//@   opt poolfresh=st
+//@   modifies all
+//@   ghost nodes (Array Int Ref) of q.first
+//@   ghost lo Int
+//@   ghost pn (Array Int Ref) of q.first
+//@   ghost plo Int
+//@   ghost st (Array Ref Int)
+//@   ghost ix (Array Ref Int)
+//@   ghost keep Int
+//@   ghostinit keep = ite(n <= 0, 0, n)
+//@   requires q != nil && LQ_WF(q, nodes, lo, pn, plo, st, ix)
+//@   assume LQ_EXISTED(nodes, lo, lo+q.count, pn, plo, plo+q.nodeCount)
+//@   ghostset st = lamr(r, ite(st[r] == 2 && ix[r] >= plo+keep, 0, st[r]))
+//@   ensures sized: q.nodeCount == ite(old(n) <= 0, 0, old(n)) && LQ_LISTFIELDS(q)
+//@   ensures others: nodes == old(nodes) && lo == old(lo) && LQ_SAME(nodes, lo, lo+q.count)
+//@   ensures wf-ends: LQ_ENDS(q, nodes, lo)
+//@   ensures wf-list: LQ_LIST(nodes, lo, lo+q.count, st, ix)
+//@   ensures wf-free-ends: LQ_FREEENDS(q, pn, plo)
+//@   ensures wf-free: LQ_FREE(pn, plo, plo+q.nodeCount, st, ix)
+//@ func (LinkedListQueue).KeepNodePoolCount loop 0
+//@   ghostbefore pn = store(pn, plo, last)
+//@   ghostbefore st = store(st, last, 2)
+//@   ghostbefore ix = store(ix, last, plo)
+//@   ghostset pn = store(pn, plo+old(n)-1-n, last)
+//@   ghostset st = store(st, last, 2)
+//@   ghostset ix = store(ix, last, plo+old(n)-1-n)
+//@   invariant counters: 0 <= n && n <= old(n)-1 && q.nodeCount == old(n) && keep == old(n) && q.nodePoolFirst == pn[plo] && last == pn[plo+old(n)-1-n] && last != nil
+//@   invariant kept: LQ_FREE(pn, plo, plo+old(n)-n, st, ix)
+//@   invariant link: (old(n)-n < old(q.nodeCount) ==> last.Next == pn[plo+old(n)-n]) && (old(n)-n >= old(q.nodeCount) ==> last.Next == nil)
+//@   invariant rest: forall(j, plo+old(n)-n, plo+old(q.nodeCount), pn[j] != nil && st[pn[j]] == 2 && ix[pn[j]] == j && (j+1 < plo+old(q.nodeCount) ==> pn[j].Next == pn[j+1]) && (j+1 == plo+old(q.nodeCount) ==> pn[j].Next == nil))
+//@   invariant list: LQ_ENDS(q, nodes, lo) && LQ_LIST(nodes, lo, lo+q.count, st, ix) && LQ_SAME(nodes, lo, lo+q.count) && LQ_LISTFIELDS(q) && nodes == old(nodes) && lo == old(lo)
+
+// ===================================================================================================
+// C08 - ConcurrentQueue / ConcurrentStack: the ownership discipline that implies linearizability
+// (every method: acquire the exclusive lock; exactly one call on the wrapped object, arguments and results passed
+//  through unchanged; release on every path). Schedules are not explored; see DESIGN.md section 5, C08.
+//@ func (ConcurrentQueue).Put
+//@   prop C08
+//@   opt guarded=queue:lock
+//@   opt frame=off
+//@   requires q != nil && !untyped(q.queue)
+//@   ensures arg-passed-through: _delegarg0 == val
+//@   ensures result-passed-through: r0 == _delegated0
+
+//@ func (ConcurrentQueue).Offer
+//@   prop C08
+//@   opt guarded=queue:lock
+//@   opt frame=off
+//@   requires q != nil && !untyped(q.queue)
+//@   ensures arg-passed-through: _delegarg0 == val
+//@   ensures result-passed-through: r0 == _delegated0
+
+//@ func (ConcurrentQueue).Take
+//@   prop C08
+//@   opt guarded=queue:lock
+//@   opt frame=off
+//@   requires q != nil && !untyped(q.queue)
+//@   ensures result-passed-through: r0 == _delegated0 && r1 == _delegated1
+
+//@ func (ConcurrentQueue).Poll
+//@   prop C08
+//@   opt guarded=queue:lock
+//@   opt frame=off
+//@   requires q != nil && !untyped(q.queue)
+//@   ensures result-passed-through: r0 == _delegated0 && r1 == _delegated1
+
+//@ func (ConcurrentStack).Push
+//@   prop C08
+//@   opt guarded=stack:lock
+//@   opt frame=off
+//@   requires q != nil && !untyped(q.stack)
+//@   ensures arg-passed-through: _delegarg0 == val
+//@   ensures result-passed-through: r0 == _delegated0
+
+//@ func (ConcurrentStack).Pop
+//@   prop C08
+//@   opt guarded=stack:lock
+//@   opt frame=off
+//@   requires q != nil && !untyped(q.stack)
+//@   ensures result-passed-through: r0 == _delegated0 && r1 == _delegated1
+
+
+// ===================================================================================================
+// C05 - set algebra on slices / maps; generic functions and their interface{} twins share ONE contract text
+// (the "twin" lines below), so both bodies are verified against the same characterisation of the result.
+
+//@ define CONTAINS(lst, x) = exists(l9, 0, len(lst), lst[l9] == x)
+
+//@ func Minus
+//@   prop C05
+//@   ghost g (Array Int Int)
+//@   ghost pos (Array Int Int)
+//@   ensures shorter: len(r0) <= len(set1)
+//@   ensures sub: forall(j, 0, len(r0), 0 <= g[j] && g[j] < len(set1) && r0[j] == set1[g[j]] && !CONTAINS(set2, set1[g[j]]))
+//@   ensures mono: forall(j, 0, len(r0), forall(l, 0, j, g[l] < g[j]))
+//@   ensures all: forall(k, 0, len(set1), !CONTAINS(set2, set1[k]) ==> 0 <= pos[k] && pos[k] < len(r0) && g[pos[k]] == k)
+//@   ensures fresh: fresh(r0)
+//@   ensures unchanged: unchanged(set1) && unchanged(set2)
+//@ func Minus loop 0
+//@   ghostset g = ite(!CONTAINS(set2, set1[_i]), store(g, resultIndex-1, _i), g)
+//@   ghostset pos = ite(!CONTAINS(set2, set1[_i]), store(pos, _i, resultIndex-1), pos)
+//@   invariant n: 0 <= resultIndex && resultIndex <= _i && len(result) == len(set1) && fresh(result)
+//@   invariant lookup: forallv(x, has(set2Map, x) == CONTAINS(set2, x))
+//@   invariant sub: forall(j, 0, resultIndex, 0 <= g[j] && g[j] < _i && result[j] == set1[g[j]] && !CONTAINS(set2, set1[g[j]]))
+//@   invariant mono: forall(j, 0, resultIndex, forall(l, 0, j, g[l] < g[j]))
+//@   invariant all: forall(k, 0, _i, !CONTAINS(set2, set1[k]) ==> 0 <= pos[k] && pos[k] < resultIndex && g[pos[k]] == k)
+//@ twin Minus MinusForInterface
+
+//@ func IsSubset
+//@   prop C05
+//@   ensures empty: len(list1) == 0 || len(list2) == 0 ==> r0 == false
+//@   ensures def: len(list1) > 0 && len(list2) > 0 ==> r0 == forall(i, 0, len(list1), CONTAINS(list2, list1[i]))
+//@   ensures unchanged: unchanged(list1) && unchanged(list2)
+//@ func IsSubset loop 0
+//@   invariant range: 0 <= i && i <= len(list1) && fresh(resultMap)
+//@   invariant seen: forallv(x, has(resultMap, x) == exists(k, 0, i, list1[k] == x))
+//@   invariant sofar: forall(k, 0, i, CONTAINS(list2, list1[k]))
+//@ func IsSubset loop 1
+//@   invariant range: 0 <= j && j <= len(list2) && 0 <= i && i < len(list1)
+//@   invariant notyet: !found ==> forall(l, 0, j, list2[l] != list1[i])
+//@   invariant found: found ==> CONTAINS(list2, list1[i])
+//@ twin IsSubset IsSubsetForInterface
+
+//@ func IsSuperset
+//@   prop C05
+//@   ensures empty: len(list1) == 0 || len(list2) == 0 ==> r0 == false
+//@   ensures def: len(list1) > 0 && len(list2) > 0 ==> r0 == forall(i, 0, len(list2), CONTAINS(list1, list2[i]))
+//@ twin IsSuperset IsSupersetForInterface
+
+//@ func Union
+//@   prop C05
+//@   ensures members: forall(i, 0, len(r0), exists(k, 0, len(arrList), CONTAINS(arrList[k], r0[i])))
+//@   ensures onto: forall2(k, 0, len(arrList), l, 0, len(arrList[k]), exists(i, 0, len(r0), r0[i] == arrList[k][l]))
+//@   ensures nodup: forall(i, 0, len(r0), forall(j, 0, i, r0[j] != r0[i]))
+//@   ensures fresh: fresh(r0)
+//@ func Union loop 0
+//@   invariant seen: fresh(resultMap) && forallv(x, has(resultMap, x) == exists(k, 0, _i, CONTAINS(arrList[k], x)))
+//@ func Union loop 1
+//@   invariant seen: fresh(resultMap) && arr == arrList[_i0] && forallv(x, has(resultMap, x) == (exists(k, 0, _i0, CONTAINS(arrList[k], x)) || exists(l, 0, _i, arr[l] == x)))
+//@   after summary: fresh(resultMap) && forallv(x, has(resultMap, x) == (exists(k, 0, _i0, CONTAINS(arrList[k], x)) || CONTAINS(arrList[_i0], x)))
+//@ func Union loop 2
+//@   invariant count: i == _i && len(result) == _n && fresh(result)
+//@   invariant prefix: forall(j, 0, _i, result[j] == _keyat(j))
+
+//@ func MinusMapByKey
+//@   prop C05
+//@   ensures dom: forallv(x, has(r0, x) == (has(set1, x) && !has(set2, x)))
+//@   ensures val: forallv(x, has(r0, x) ==> r0[x] == set1[x])
+//@   ensures fresh: fresh(r0)
+//@   ensures unchanged: unchangedmap(set1) && unchangedmap(set2)
+//@ func MinusMapByKey loop 0
+//@   invariant dom: forallv(x, has(resultMap, x) == (_visited(x) && !has(set2, x)))
+//@   invariant val: forallv(x, has(resultMap, x) ==> resultMap[x] == set1[x])
+//@   invariant fresh: fresh(resultMap)
+
+//@ func IsSubsetMapByKey
+//@   prop C05
+//@   ensures empty: len(item1) == 0 || len(item2) == 0 ==> r0 == false
+//@   ensures def: len(item1) > 0 && len(item2) > 0 ==> r0 == forallv(x, has(item1, x) ==> has(item2, x))
+//@   ensures unchanged: unchangedmap(item1) && unchangedmap(item2)
+//@ func IsSubsetMapByKey loop 0
+//@   invariant sofar: forallv(x, _visited(x) ==> has(item2, x))
+//@ twin IsSubsetMapByKey IsSubsetMapByKeyForInterface
+
+//@ func IsSupersetMapByKey
+//@   prop C05
+//@   ensures empty: len(item1) == 0 || len(item2) == 0 ==> r0 == false
+//@   ensures def: len(item1) > 0 && len(item2) > 0 ==> r0 == forallv(x, has(item2, x) ==> has(item1, x))
+//@ twin IsSupersetMapByKey IsSupersetMapByKeyForInterface
+
+// twins of helpers that are specified under C03
+//@ twin Distinct DistinctForInterface prop C05
+//@ twin Exists ExistsForInterface prop C05
+//@ twin Keys KeysForInterface prop C05
+//@ twin Values ValuesForInterface prop C05
+//@ twin Merge MergeForInterface prop C05
+//@ twin SliceToMap SliceToMapForInterface prop C05
+//@ twin DuplicateMap DuplicateMapForInterface prop C05
+
+// Intersection / Difference: element i of the first list is kept iff its value is in all (resp. none) of the other lists and
+// it is the first occurrence of that value in the first list. The ghost predicate inall[x] / innone[x] is DEFINED (clause "def")
+// as that membership statement, so that equal values trivially share it.
+// Precondition: at least one list (Intersection()/Difference() called with a non-nil empty argument list index [0] and panic;
+// such calls are outside the property's quantifier).
+//@ define IX_FIRST(L, i) = forall(l8, 0, i, L[0][l8] != L[0][i])
+
+//@ func Intersection
+//@   prop C05
+//@   ghost g (Array Int Int)
+//@   ghost pos (Array Int Int)
+//@   ghost inall (Array Val Bool)
+//@   ghost hit (Array Int Bool)
+//@   ghostinit inall = lamvo(x, forall(k9, 1, len(inputList), CONTAINS(inputList[k9], x)))
+//@   requires inputList == nil || len(inputList) > 0
+//@   ensures def: forallv(x, reveal(inall, x) ==> inall[x] == forall(k9, 1, len(inputList), CONTAINS(inputList[k9], x)))
+//@   ensures nil: inputList == nil ==> len(r0) == 0
+//@   ensures sub: inputList != nil ==> forall(j, 0, len(r0), 0 <= g[j] && g[j] < len(inputList[0]) && r0[j] == inputList[0][g[j]] && inall[inputList[0][g[j]]] && IX_FIRST(inputList, g[j]))
+//@   ensures mono: forall(j, 0, len(r0), forall(l, 0, j, g[l] < g[j]))
+//@   ensures all: inputList != nil ==> forall(k, 0, len(inputList[0]), inall[inputList[0][k]] && IX_FIRST(inputList, k) ==> 0 <= pos[k] && pos[k] < len(r0) && g[pos[k]] == k)
+//@   ensures fresh: freshOrNil(r0)
+//@ func Intersection loop 0
+//@   ghostset g = ite(IX_FIRST(inputList, i), store(g, len(newList)-1, i), g)
+//@   ghostset pos = ite(IX_FIRST(inputList, i), store(pos, i, len(newList)-1), pos)
+//@   invariant range: 0 <= i && i <= len(inputList[0]) && len(newList) <= i && freshOrNil(newList) && fresh(resultMap) && len(inputList) == 1
+//@   invariant seen: forallv(x, has(resultMap, x) == exists(l, 0, i, inputList[0][l] == x))
+//@   invariant sub: forall(j, 0, len(newList), 0 <= g[j] && g[j] < i && newList[j] == inputList[0][g[j]] && IX_FIRST(inputList, g[j]))
+//@   invariant mono: forall(j, 0, len(newList), forall(l, 0, j, g[l] < g[j]))
+//@   invariant all: forall(k, 0, i, IX_FIRST(inputList, k) ==> 0 <= pos[k] && pos[k] < len(newList) && g[pos[k]] == k)
+//@ func Intersection loop 1
+//@   ghostset g = ite(inall[inputList[0][i]] && IX_FIRST(inputList, i), store(g, len(newList)-1, i), g)
+//@   ghostset pos = ite(inall[inputList[0][i]] && IX_FIRST(inputList, i), store(pos, i, len(newList)-1), pos)
+//@   invariant range: 0 <= i && i <= len(inputList[0]) && len(newList) <= i && freshOrNil(newList) && fresh(resultMap) && inputLen == len(inputList) && inputLen > 1
+//@   invariant seen: forallv(x, has(resultMap, x) == (inall[x] && exists(l, 0, i, inputList[0][l] == x)))
+//@   invariant sub: forall(j, 0, len(newList), 0 <= g[j] && g[j] < i && newList[j] == inputList[0][g[j]] && inall[inputList[0][g[j]]] && IX_FIRST(inputList, g[j]))
+//@   invariant mono: forall(j, 0, len(newList), forall(l, 0, j, g[l] < g[j]))
+//@   invariant all: forall(k, 0, i, inall[inputList[0][k]] && IX_FIRST(inputList, k) ==> 0 <= pos[k] && pos[k] < len(newList) && g[pos[k]] == k)
+//@ func Intersection loop 2
+//@   ghostbefore hit = lami(k, oldheap(CONTAINS(inputList[k], inputList[0][i])))
+//@   invariant range: 1 <= j && j <= inputLen && 0 <= matchCount && matchCount <= j-1
+//@   invariant count: (matchCount == j-1) == forall(k, 1, j, hit[k])
+//@   after counted: (matchCount == inputLen-1) == forall(k, 1, len(inputList), hit[k])
+//@   after bridged: forall(k, 1, len(inputList), hit[k]) == oldheap(forall(k9, 1, len(inputList), CONTAINS(inputList[k9], inputList[0][i])))
+//@   after unfolded: oldheap(reveal(inall, inputList[0][i]) ==> inall[inputList[0][i]] == (forall(k9, 1, len(inputList), CONTAINS(inputList[k9], inputList[0][i]))))
+//@   after summary: oldheap((matchCount == inputLen-1) == inall[inputList[0][i]])
+//@ func Intersection loop 3
+//@   invariant range: 0 <= matchCount && matchCount <= j-1
+//@   invariant count: (matchCount == j-1) == forall(k, 1, j, hit[k])
+//@   invariant nomatch: oldheap(forall(l, 0, _i, inputList[j][l] != inputList[0][i]))
+//@   after this-list: hit[j] == oldheap(CONTAINS(inputList[j], inputList[0][i]))
+//@   after summary: 0 <= matchCount && matchCount <= j && (matchCount == j) == forall(k, 1, j+1, hit[k])
+//@ twin Intersection IntersectionForInterface
+
+//@ func Difference
+//@   prop C05
+//@   ghost g (Array Int Int)
+//@   ghost pos (Array Int Int)
+//@   ghost innone (Array Val Bool)
+//@   ghost hit (Array Int Bool)
+//@   ghostinit innone = lamvo(x, forall(k9, 1, len(arrList), !CONTAINS(arrList[k9], x)))
+//@   requires arrList == nil || len(arrList) > 0
+//@   ghostset g = ite(len(arrList) == 1, Distinct_g, g)
+//@   ghostset pos = ite(len(arrList) == 1, Distinct_pos, pos)
+//@   ensures def: forallv(x, reveal(innone, x) ==> innone[x] == forall(k9, 1, len(arrList), !CONTAINS(arrList[k9], x)))
+//@   ensures nil: arrList == nil ==> len(r0) == 0
+//@   ensures sub: arrList != nil ==> forall(j, 0, len(r0), 0 <= g[j] && g[j] < len(arrList[0]) && r0[j] == arrList[0][g[j]] && innone[arrList[0][g[j]]] && IX_FIRST(arrList, g[j]))
+//@   ensures mono: forall(j, 0, len(r0), forall(l, 0, j, g[l] < g[j]))
+//@   ensures all: arrList != nil ==> forall(k, 0, len(arrList[0]), innone[arrList[0][k]] && IX_FIRST(arrList, k) ==> 0 <= pos[k] && pos[k] < len(r0) && g[pos[k]] == k)
+//@   ensures fresh: freshOrNil(r0)
+//@ func Difference loop 0
+//@   ghostset g = ite(innone[arrList[0][i]] && IX_FIRST(arrList, i), store(g, len(newList)-1, i), g)
+//@   ghostset pos = ite(innone[arrList[0][i]] && IX_FIRST(arrList, i), store(pos, i, len(newList)-1), pos)
+//@   invariant range: 0 <= i && i <= len(arrList[0]) && len(newList) <= i && freshOrNil(newList) && fresh(resultMap) && len(arrList) > 1
+//@   invariant seen: forallv(x, has(resultMap, x) == (innone[x] && exists(l, 0, i, arrList[0][l] == x)))
+//@   invariant sub: forall(j, 0, len(newList), 0 <= g[j] && g[j] < i && newList[j] == arrList[0][g[j]] && innone[arrList[0][g[j]]] && IX_FIRST(arrList, g[j]))
+//@   invariant mono: forall(j, 0, len(newList), forall(l, 0, j, g[l] < g[j]))
+//@   invariant all: forall(k, 0, i, innone[arrList[0][k]] && IX_FIRST(arrList, k) ==> 0 <= pos[k] && pos[k] < len(newList) && g[pos[k]] == k)
+//@ func Difference loop 1
+//@   ghostbefore hit = lami(k, oldheap(CONTAINS(arrList[k], arrList[0][i])))
+//@   invariant range: 1 <= j && j <= len(arrList) && 0 <= matchCount
+//@   invariant count: (matchCount == 0) == forall(k, 1, j, !hit[k])
+//@   after counted: (matchCount == 0) == forall(k, 1, len(arrList), !hit[k])
+//@   after bridged: forall(k, 1, len(arrList), !hit[k]) == oldheap(forall(k9, 1, len(arrList), !CONTAINS(arrList[k9], arrList[0][i])))
+//@   after unfolded: oldheap(reveal(innone, arrList[0][i]) ==> innone[arrList[0][i]] == (forall(k9, 1, len(arrList), !CONTAINS(arrList[k9], arrList[0][i]))))
+//@   after summary: oldheap((matchCount == 0) == innone[arrList[0][i]])
+//@ func Difference loop 2
+//@   invariant range: 0 <= matchCount
+//@   invariant count: (matchCount == 0) == forall(k, 1, j, !hit[k])
+//@   invariant nomatch: oldheap(forall(l, 0, _i, arrList[j][l] != arrList[0][i]))
+//@   after this-list: hit[j] == oldheap(CONTAINS(arrList[j], arrList[0][i]))
+//@   after summary: 0 <= matchCount && (matchCount == 0) == forall(k, 1, j+1, !hit[k])
